@@ -45,6 +45,10 @@ class GlobalLicensingConflictError(ReuseError):
     """
 
 
+class LicenseConflictError(ReuseError, RuntimeError):
+    """Several files in LICENSES/ resolve to the same SPDX License Identifier."""
+
+
 class MissingReuseInfoError(ReuseError):
     """Some REUSE information is missing from the result."""
 
